@@ -88,7 +88,10 @@ static void gen_stmt(Gen *g) {
     case 28: var(g, TAP, x); var(g, TP, y); buf_printf(g->b, "if (> (array_length %s) 0) { set %s (at %s 0) }\n", x, y, x); break;
     case 29: var(g, TS, x); buf_printf(g->b, "set %s (deep %s %u)\n", x, x, 1 + gr(6)); break;
     /* ---- new variables / structure (top level only) ---- */
-    case 30: newvar(g, TS, nv); var(g, TS, x); var(g, TI, y); buf_printf(g->b, "let mut %s: string = (+ %s (int_to_string %s))\n", nv, x, y); g->cnt[TS]++; break;
+    case 30: newvar(g, TS, nv); var(g, TS, x); var(g, TI, y);
+        if (gr(3) == 0) buf_printf(g->b, "let mut %s: string = (to_string %s)\n", nv, x);   /* a cast to the type the value already has: the result IS the operand */
+        else buf_printf(g->b, "let mut %s: string = (+ %s (int_to_string %s))\n", nv, x, y);
+        g->cnt[TS]++; break;
     case 31: newvar(g, TAI, nv); var(g, TAI, x); buf_printf(g->b, "let mut %s: array<int> = %s\n", nv, x); g->cnt[TAI]++; break;
     case 32: newvar(g, TAI, nv); var(g, TAI, x); buf_printf(g->b, "let mut %s: array<int> = (array_slice %s 0 (/ (array_length %s) 2))\n", nv, x, x); g->cnt[TAI]++; break;
     case 33: newvar(g, TAI, nv); var(g, TAI, x); buf_printf(g->b, "let mut %s: array<int> = (idA2 %s)\n", nv, x); g->cnt[TAI]++; break;
@@ -163,6 +166,7 @@ void heap_gen_program(uint64_t pseed, Buf *src) {
 
 /* ---------------- churn templates: loop body whose values die each iteration ---------------- */
 static const struct { const char *name, *decl, *body; } CHURN[] = {
+    { "identity_cast_string", "", "let s: string = (+ \"a\" (int_to_string i))\n        let t: string = (to_string s)\n        let u: string = (to_string t)\n        set acc (+ acc (str_length u))" },
     { "string_concat", "", "let s: string = (+ \"a\" (int_to_string i))\n        set acc (+ acc (str_length s))" },
     { "array_literal", "", "let a: array<int> = [i, 2, 3]\n        set acc (+ acc (array_length a))" },
     { "array_push", "", "let mut a: array<int> = []\n        set a (array_push a i)\n        set a (array_push a 2)\n        set acc (+ acc (at a 0))" },
